@@ -330,7 +330,7 @@ func runC06(c *gen.Ctx) error {
 	// (d) random configurations: mostly short lists (small sets, many configs), some with every
 	// axis a uniformly random subset; 0-3 include and exclude entries; a few rendered with enum
 	// numbers or with the features message absent
-	nRand := 4000
+	nRand := 8000
 	if c.Thorough() {
 		nRand = 120000
 	}
